@@ -557,6 +557,7 @@ func writeEvidence(rd *runData, prop, tier string, seed int, sel, discharged, kn
 			"samples":                    samples,
 			"functions_under_contract":   fns,
 			"helpers_decided_at_call_sites": rd.eng.inlineOnly,
+			"contracts_following_renamed_functions": rd.eng.renamedNotes,
 			"per_obligation":             recs,
 			"backends":                   backends,
 			"solver_time_s":              float64(solverMs) / 1000,
